@@ -12,6 +12,8 @@ def handler(depth, pending):
     pending: None | 'unqualified' | 'qualified'"""
     def mk_(mk, base):
         maps = [mk.value(NSMAP, f"scope{i}") for i in range(depth)]
+        for i, m in enumerate(maps):
+            mk.exports[f"scope{i}"] = m  # ghost handles on the scope objects (identity survives old())
         ns_map = maps[-1] if maps else mk.value(NSMAP, "user_map")
         if pending is None:
             tag = None
@@ -35,6 +37,7 @@ BOUND = "exists('str|None', lambda k: k in self.ns_map and self.ns_map[k] == {u}
 
 def register(db):
     collab.declare(db)
+    register_end_tag(db)
     P = ["C03"]
     # abstract SAX callbacks: their calls are recorded on the ghost trace
     for m in ("start_document", "end_document", "start_element", "end_element", "set_characters",
@@ -154,3 +157,27 @@ def register(db):
         raises={}, modifies=["self.ns_map"],
         properties=P,
     ))
+
+
+def register_end_tag(db):
+    """end_tag closes exactly the innermost scope: the element is ended once with the expanded name of its qname,
+    the namespace context loses its top entry and the handler's current map is the parent's scope *object* again
+    (siblings that follow are written in the parent's scope, with whatever the parent declared)."""
+    P = ["C03"]
+    for depth in (1, 2):
+        db.add(Contract(
+            f"{EH}.end_tag", variant=f"depth{depth}",
+            params={"self": handler(depth, None), "qname": "str"},
+            requires=["len(qname) > 0"],
+            ensures=[
+                ("ends-the-element-once", "called('EventHandler.end_element') == 1 and call_arg('EventHandler.end_element', 2) == qname "
+                                          "and call_arg('EventHandler.end_element', 1) == clark_split(qname)"),
+                ("scope-popped", f"len(self.ns_context) == {depth - 1}"),
+                ("nothing-pending-no-tail", "self.pending_tag is None and self.tail is None and self.in_tail == False"),
+            ] + ([("current-map-is-the-parent-scope-object", "self.ns_map is self.ns_context[-1] and self.ns_map is scope0"),
+                    ("parent-scope-content-untouched", "same_dict(scope0, old(scope0))")]
+                 if depth == 2 else []),
+            raises={}, modifies=["self.ns_map", "self.tail", "self.in_tail", "self.ns_context", "self.pending_tag", "self.attrs"],
+            loops=[Loop(invariants=[], header="self.pending_prefixes.pop()")],
+            properties=P,
+        ))
